@@ -100,7 +100,7 @@ def run(tier, seed):
     ck.add_mc(vlib.tlc_model_check("MC_Broadcast", "MC_Broadcast_" + tier, timeout=2400))
     V, B, S = extra_invalid()
     views = [c for c in c03.load_cases(tier) if c["op"] in ("reshape", "transpose", "expand_dims", "moveaxis")] + V
-    bcast = c06.load_cases(tier) + B
+    bcast = c06.expand(c06.load_cases(tier), seed) + B
     uf = [dict(op="mix", shapes=c["shapes"], args=dict(none=True)) for c in vlib.tlc_generate("GenBroadcast", "GenBroadcast_" + tier, env={"FAM": "pairs"}, key_extra="pairs")
           if c["shapes"][0] and c["shapes"][1] and prod(c["shapes"][0]) * prod(c["shapes"][1]) <= 4096]
     n = 0
